@@ -67,6 +67,14 @@ class C08(Prop):
         while len(cases) < n:
             m = rng.randint(2, 4); surplus = rng.randint(1, 3)
             sys = gs.gen_system(rng, mrange=(m, m), nrange=(m + surplus, m + surplus), finite_ub=True)
+            if sys["Kkind"] == "matrix" and rng.random() < 0.5:
+                # opponent channels: transformed captures may DEcrease with intensity (in-gamut targets below the dark level in some channel)
+                K2 = np.eye(m)
+                for i in range(m):
+                    if rng.random() < 0.7:
+                        K2[i, rng.choice([j for j in range(m) if j != i])] = -rng.choice([0.5, 0.75, 1.0])
+                if gs.well_scaled(sys["A"], sys["lb"], sys["ub"], K2, sys["baseline"]):
+                    sys = dict(sys, K=K2)
             nn = sys["n"]; lb, ub = sys["lb"], sys["ub"]
             held = False
             if surplus >= 2 and rng.random() < 0.35:
@@ -89,8 +97,10 @@ class C08(Prop):
             # intensities in units 2^30 times larger (sources calibrated per Watt instead of per nW): exact rescaling, asked of the linear goals only
             # (the quadratic goals are below the solver's absolute accuracy in such units even on the unchanged tree: observation O-1 in DESIGN)
             usc = -30 if (opt in ("min", "max") and not held and rng.random() < 0.4) else 0
+            # the judged target is the last of a fine ramp of targets fitted in one call (4 ppm steps)
+            ramp = rng.choice([0, 0, 0, 6, 12]) if usc == 0 else 0
             cases.append({"sys": {k: (v.tolist() if isinstance(v, np.ndarray) else v) for k, v in sys.items()}, "b": b.tolist(), "w": w,
-                          "opt": opt, "l2_eps": rng.choice([1e-6, 1e-5, 1e-4, 1e-3]), "usc": usc,
+                          "opt": opt, "l2_eps": rng.choice([1e-6, 1e-5, 1e-4, 1e-3]), "usc": usc, "ramp": ramp,
                           "kind": "%s/surplus%d/K-%s%s%s" % (opt if isinstance(opt, str) else ("vec" if isinstance(opt, list) else "num"), surplus, sys["Kkind"],
                                                             "/held" if held else "", "/unit2^%d" % usc if usc else "")})
         return cases
@@ -104,11 +114,15 @@ class C08(Prop):
         opt = case["opt"]
         optin = np.array(opt) if isinstance(opt, list) else opt
         # warm-ups: the same system with another tolerance, and a sibling system (other baseline), must leave no trace in the call that is judged
-        Bw = np.asarray(case["b"])[None]
+        Bw = np.asarray(case["b"], dtype=float)[None]
+        nr = int(case.get("ramp") or 0)
+        if nr:
+            Bw = np.vstack([Bw * (1 - 4e-6 * k) for k in range(nr, -1, -1)])
+        core.watch(Bw)
         gs.warm(lambda: est.fit_underdetermined(Bw, underdetermined_opt=optin, l2_eps=(1e-2 if case["l2_eps"] < 1e-3 else 1e-6), **HI))
         gs.warm(lambda: gs.make_estimator(gs.sibling(sys), w=np.array(case["w"])).fit_underdetermined(Bw + 0.75, underdetermined_opt=optin, l2_eps=case["l2_eps"], **HI))
-        X, Bp = est.fit_underdetermined(np.asarray(case["b"])[None], underdetermined_opt=optin, l2_eps=case["l2_eps"], **HI)
-        return {"X": (np.asarray(X, dtype=float)[0] / u).tolist(), "Bpred": np.asarray(Bp, dtype=float)[0].tolist()}
+        X, Bp = est.fit_underdetermined(Bw, underdetermined_opt=optin, l2_eps=case["l2_eps"], **HI)
+        return {"X": (np.asarray(X, dtype=float)[-1] / u).tolist(), "Bpred": np.asarray(Bp, dtype=float)[-1].tolist()}
 
     def prep(self, case, out):
         if "_p" in case:
